@@ -479,7 +479,24 @@ class TupimageTerminal:
     supported_formats = _config_property("supported_formats")
     stream_max_size = _config_property("stream_max_size")
     file_max_size = _config_property("file_max_size")
-    num_tmux_layers = _config_property("num_tmux_layers")
+
+    @property
+    def num_tmux_layers(self):
+        return self._config.num_tmux_layers
+
+    @num_tmux_layers.setter
+    def num_tmux_layers(self, new_value):
+        # The commands are wrapped by the GraphicsTerminal: keep its layer count in
+        # step with the configuration.
+        self._config.override_from_dict({"num_tmux_layers": new_value})
+        if self._config.num_tmux_layers == "auto":
+            self.term.num_tmux_layers = 0
+            self.term.detect_tmux()
+            self._config.override_from_dict(
+                {"num_tmux_layers": self.term.num_tmux_layers}
+            )
+        else:
+            self.term.num_tmux_layers = self._config.num_tmux_layers
 
     def _tmux_display_message(self, message: str):
         result = subprocess.run(
